@@ -112,7 +112,7 @@ static int tune_slot(const int *t) { for (int k = 0; k < vf_ntunings; k++) { int
 static uint64_t solo_hash(int body, int tune_idx, int fillb)
 {
     if (solo_have[body][tune_idx]) return solo_cache[body][tune_idx];
-    char cmd[256]; snprintf(cmd, sizeof cmd, "/proc/%d/exe C09solo --solo %d,%d,%d 2>/dev/null", (int)getpid(), body, tune_idx, fillb);
+    char cmd[256]; snprintf(cmd, sizeof cmd, "exec /proc/%d/exe C09solo --solo %d,%d,%d 2>/dev/null", (int)getpid(), body, tune_idx, fillb);
     FILE *p = popen(cmd, "r"); unsigned long long v = 0; if (!p || fscanf(p, "%llx", &v) != 1) v = 0; if (p) pclose(p);
     solo_cache[body][tune_idx] = v; solo_have[body][tune_idx] = 1; return v;
 }
@@ -257,7 +257,7 @@ int main(int argc, char **argv)
 {
     if (argc >= 4 && !strcmp(argv[1], "C09solo") && !strcmp(argv[2], "--solo")) {
         int b, ti, fb; if (sscanf(argv[3], "%d,%d,%d", &b, &ti, &fb) != 3) return 2;
-        wk = calloc(1, sizeof *wk);
+        wk = calloc(1, sizeof *wk); alarm(20);      /* a body that does not return is an outcome of the caller's case, not a reason to wait forever */
         for (int q = 1; q <= 7; q++) vf_tune[q] = vf_tunings[ti][q];
         vf_fill_byte = fb; int dn = open("/dev/null", 1); int so = dup(1); dup2(dn, 1);
         uint64_t h = run_body(b); fflush(stdout); dup2(so, 1);
